@@ -18,11 +18,13 @@ BEHAVIOURS = ("read", "partial", "drop")
 
 
 def _responder(framings: list[str]) -> typing.Callable[[Req, int], Resp]:
-    count = {"n": 0}
-
     def respond(req: Req, n: int) -> Resp:
-        i = count["n"]
-        count["n"] += 1
+        # the exchange index travels in the target (/x<i>), so that a request
+        # that never reached the server does not shift the script
+        try:
+            i = int(req.target[2:3])
+        except ValueError:
+            i = 99
         f = framings[i] if i < len(framings) else "cl"
         tok = req.target
         body = b"tok=" + tok + b";" + b"z" * 5
